@@ -10,6 +10,10 @@ use crate::choice::Choices;
 use crate::run::{Case, Failure, Prop, ShardCtx, Sub, SubKind, Tier};
 use std::sync::OnceLock;
 
+/// calls that succeed but go through an unusual path (overflow fallbacks, type changes, huge results): state they leave
+/// behind must not reach the conversion either
+const AFTER_OK: [&str; 12] = ["9223372036854775807+1", "3037000500*3037000500", "2^64", "21!", "(0-9223372036854775807)-2", "1/3", "2^0.5", "floor(2.5)", "9007199254740993*3", "170!", "w(1)", "1/0.0"];
+
 pub struct C18Prop;
 pub static C18: C18Prop = C18Prop;
 
@@ -126,7 +130,7 @@ impl Prop for C18Prop {
             Sub { name: "boundary", kind: SubKind::Enum { count: boundary_set().len() as u64 } },
             Sub { name: "random", kind: SubKind::Random { cases: tier.pick(1_000_000, 100_000_000), len: 6 } },
             Sub { name: "random-exp", kind: SubKind::Random { cases: tier.pick(1_000_000, 100_000_000), len: 6 } },
-            Sub { name: "after-failures", kind: SubKind::Enum { count: failing_templates(Ev::Num).len() as u64 } },
+            Sub { name: "after-failures", kind: SubKind::Enum { count: (failing_templates(Ev::Num).len() + AFTER_OK.len()) as u64 } },
             Sub { name: "from-i64", kind: SubKind::Random { cases: tier.pick(200_000, 10_000_000), len: 6 } },
         ]
     }
@@ -134,7 +138,9 @@ impl Prop for C18Prop {
         if sub == "after-failures" {
             // the conversion is a pure function of the double: it must not change after failing eval_number calls on the thread
             let mut case = Case::new(Ev::Num, format!("{:#018x}", 42.0f64.to_bits()), Val::NI(0));
-            case.aux = vec!["after".into(), failing_templates(Ev::Num).get(idx as usize)?.clone()];
+            let ts = failing_templates(Ev::Num);
+            let t = if (idx as usize) < ts.len() { ts[idx as usize].clone() } else { AFTER_OK.get(idx as usize - ts.len())?.to_string() };
+            case.aux = vec!["after".into(), t];
             return Some(case);
         }
         let b = boundary_set()[idx as usize];
@@ -174,7 +180,7 @@ impl Prop for C18Prop {
                     let _ = api::eval(Ev::Num, t, &Val::NI(5));
                 }
                 sc.evals(3);
-                for v in [42.0f64, -7.0, 0.0, 3e9, 9007199254740992.0, -0.0, 2.5, 1e300] {
+                for v in [42.0f64, -7.0, 0.0, 3e9, 9007199254740992.0, -0.0, 2.5, 1e300, 1152921504606846976.0, 9007199254740994.0, -4611686018427387904.0, 1e18] {
                     let c2 = Case::new(Ev::Num, format!("{:#018x}", v.to_bits()), Val::NI(0));
                     self.check("boundary", &c2, sc).map_err(|mut f| {
                         f.detail = format!("after three failing calls of eval_number({:?}) on this thread", t);
